@@ -8,7 +8,7 @@ PARTIAL = {
     "C07": "machine-level memory safety (reads of freed bytes, aliasing-model UB, hashbrown's own unsafe code) is sampled by the hook walk / Miri, not proved",
     "C08": "the real stack is sampled (debug build, 256 KiB thread); size_of is a parameter of the model",
     "C09": "the real allocator's behaviour (std's request sizes) is a validated model, not verified",
-    "C16": "panics in Drop / BuildHasher::clone, aborts and hashbrown's unwinding are not modelled",
+    "C16": "panics in Drop / BuildHasher::clone, aborts and hashbrown's unwinding are not modelled; try_insert/mutate on the two stale states of DESIGN §13.6 are outside the history theorem",
     "C17": "as C06/C07 for the machine level",
     "C18": "rustc's trait solver and borrow checker are trusted; the declaration model is regenerated from source",
     "C19": "a write that restores the old value or a race inside hashbrown::find is visible only to Miri",
@@ -18,6 +18,9 @@ TECH = {
     "default": "Lean 4 theorems over a Level-A functional model (induction over histories, invariant InvA, all oracles) + differential correspondence run (Rust harness vs native Lean driver) with implementation-side monitors as failing-input search",
     "C08": "Lean 4 theorems over a deep embedding of the size-estimation impls (induction on types) + differential run of ~60 concrete Rust types against the model",
     "C09": "Lean 4 theorem heapSize = allocBytes by induction on types + counting global allocator differential run",
+    "C07": "Lean 4 theorems over the Level-B pointer model (representation invariant Rep, refinement of every operation to Level A, induction over histories incl. iterators, drains, clones) + differential correspondence run with a pointer-validating hook walk of the real heap; thorough tier adds Miri as a search aid",
+    "C16": "Lean 4 theorems over an explicit panic model at Level A (every callback point) and Level B (pointer structure at every abort point, reallocation guard, refinement from weak states, induction over histories with panics anywhere) + systematic panic injection in the differential run; thorough tier adds Miri as a search aid",
+    "C19": "Lean 4 theorems: every &self operation returns the same Level-A value and the same Level-B pointer state + hook fingerprint before/after every &self call and concurrent reader threads in the differential run; thorough tier adds Miri (data-race detector) as a search aid",
     "C18": "Lean 4 `decide` over the complete auto-trait table regenerated from /repo/src by tools/decls.py + rustc probe programs as the implementation side",
 }
 
